@@ -56,6 +56,12 @@ def run(ctx):
         ms = sc.mutations(d, rng, limit=12 if ctx.quick else 60)
         nmut += len(ms)
         inputs += ms
+    # a few large valid dumps (payloads above any internal chunking threshold) and their truncations
+    for v in (b"x" * 70000, [b"z" * 65537, 1], {"k": b"q" * 65536}):
+        d = gb.dumps(v)
+        inputs.append((list(d), False))
+        inputs.append((list(d[:-1]), True))
+        inputs.append((list(d[: len(d) // 2]), True))
     seen = set()
     loads = []
     for inp, pre in inputs:
